@@ -368,7 +368,9 @@ func c17Eval(p *vreport.Part, c c17Case, bound int) {
 			if resp[0].Status != bolt.ResponseStatusTimeout {
 				report("timeout: silent upstream was not completed by a timeout reply", fmt.Sprintf("status %d", resp[0].Status))
 			} else if len(atts) > 0 {
-				if d := resp[0].AtMs - atts[0].f.AtMs; d != c.WantTimeoutMs {
+				// a deadline that falls inside the 10 ms retry back-off is acted on when the back-off sleep
+				// ends: up to one back-off late is the proxy's timer granularity, not another timeout
+				if d := resp[0].AtMs - atts[0].f.AtMs; d < c.WantTimeoutMs || d > c.WantTimeoutMs+10 {
 					report("timeout: the global timeout does not cover the whole request including its retries", fmt.Sprintf("reply %d ms after the first attempt, configured %d ms; %d attempts", d, c.WantTimeoutMs, len(atts)))
 				}
 				if len(atts) != c.WantAttempts {
